@@ -26,7 +26,7 @@ def control_statuses(objs):
 
 class C04(OutstationProp):
     id = "C04"
-    proof_targets = ["Outstation/SessionC04Proofs.vo"]
+    proof_targets = ["Outstation/SessionC04Proofs.vo", "Outstation/FullCorollaries.vo"]
     property_file = "Properties/C04.v"
     rule = ("histories of SELECT / OPERATE / DIRECT_OPERATE / READ / CONFIRM / malformed / broadcast / foreign-master "
             "fragments with chosen sequence numbers, control objects g12v1 and g41v1-4 with 1- and 2-byte prefixes, clock "
